@@ -831,6 +831,10 @@ def apply_rules(text, rules, log, fn):
     text, k21 = r21_ready_macro(text)      # always: a macro Verus does not know, replaced by its documented expansion
     if k21:
         log["R21-ready"] = log.get("R21-ready", 0) + k21
+    # Option::as_deref has no Verus specification; for the method calls made on the payload `as_ref` is the same (auto-deref)
+    text, kad = sub(text, r"\.\s*as_deref\(\)", ".as_ref()", count=-1, name="R10d")
+    if kad:
+        log["R10d-as_deref"] = log.get("R10d-as_deref", 0) + kad
     text, k10m = r10_map_or(text)
     if k10m:
         log["R10m-map_or"] = log.get("R10m-map_or", 0) + k10m
